@@ -207,7 +207,7 @@ def main():
     from adcgen import GroundState, Operators
     gs0 = GroundState(Operators("mp"))
     for r in series.check(lambda n, mo: gs0.expand_norm_factor(n, mo), half=False,
-                          orders=range(0, 9 if quick else 13), timeout_ms=TIMEOUT, seed=seed()):
+                          thorough=not quick, timeout_ms=TIMEOUT, seed=seed()):
         api = f"GroundState.expand_norm_factor({r['order']}, min_order={r['min_order']})"
         run.add_outcome("series/norm_factor", r, sample={"api": api, "expansion": r["out"][:160], "verdict": r["status"]}
                         if r["status"] == "equal" and r["order"] >= 4 else None,
